@@ -563,6 +563,28 @@ def createProds : Nat → List (List Char × List (List (List Char))) → Prods 
       let rules := (numberFrom n alts).map fun (i, p) => (⟨p.map parseSym, i⟩ : Rule Sym)
       createProds (n + alts.length) rest (acc ++ [(parseSym s, rules)])
 
+/-- bookkeeping of `_create_productions` for production templates (`ProdSequence`, `ListProds`, `MapProds`):
+the productions a template generates enter the model as data (their derivation is C05's subject);
+`tmpl` = the keys of `productions` that were given as a template (the key is a user name and is checked
+for `__`, its generated right-hand sides are not), `gen` = the additional symbols the templates created
+(`S__ELEMENT`, `L__TAIL`, … — never checked) -/
+structure Tmpl where
+  tmpl : List (List Char)
+  gen : List (List Char)
+
+def Tmpl.none : Tmpl := ⟨[], []⟩
+
+/-- `_create_productions` for a dictionary that may contain templates (expanded in place) -/
+def createProdsT (T : Tmpl) : Nat → List (List Char × List (List (List Char))) → Prods Sym → Except Err (Prods Sym)
+  | _, [], acc => .ok acc
+  | n, (s, alts) :: rest, acc =>
+    if s ∉ T.gen ∧ hasDunder s then .error .assertion
+    else if s ∉ T.gen ∧ s ∉ T.tmpl ∧ alts.any (fun p => p.any hasDunder) then .error .assertion
+    else if (dget (parseSym s) acc).isSome then .error .assertion
+    else
+      let rules := (numberFrom n alts).map fun (i, p) => (⟨p.map parseSym, i⟩ : Rule Sym)
+      createProdsT T (n + alts.length) rest (acc ++ [(parseSym s, rules)])
+
 /-- `_verify_grammar_structure_part1` -/
 def verifyPart1 (terms : List Sym) (start : Sym) (G : Prods Sym) : Except Err Unit :=
   let keys := G.map (·.1)
@@ -589,6 +611,25 @@ def construct (inp : CtorIn) : Except Err Parser := do
   if terms0.any (fun t => hasDunder t.name) then .error .assertion else
   let skip ← skipSet inp terms0
   let U ← createProds 0 inp.prods []
+  let (G, suffix) ← factorize terms0 U inp.smart
+  let terms := sadd terms0 endSym
+  let start := parseSym inp.start
+  verifyPart1 terms start G
+  let nulls ← nullables G
+  let first ← firstSets terms nulls G
+  let follow ← followSets terms nulls first G start endSym
+  let table ← mkTable terms nulls first follow G
+  recCheck G terms nulls (sortedKeys G)
+  .ok { terminals := terms, skip := skip, start := start, syn := inp.syn, kw := inp.kw,
+        userProds := U, prods := G, suffix := suffix, nullables := nulls, first := first,
+        follow := follow, table := table }
+
+/-- the constructor for a dictionary with templates: `construct` with `_create_productions` generalised -/
+def constructG (T : Tmpl) (inp : CtorIn) : Except Err Parser := do
+  let terms0 := tokenNames inp
+  if terms0.any (fun t => hasDunder t.name) then .error .assertion else
+  let skip ← skipSet inp terms0
+  let U ← createProdsT T 0 inp.prods []
   let (G, suffix) ← factorize terms0 U inp.smart
   let terms := sadd terms0 endSym
   let start := parseSym inp.start
